@@ -159,15 +159,45 @@ def stepNS (st : NS) (op impl : String) : NS × StepOut :=
     let parseIdx (s : String) : Option (List Nat) :=
       if s == "-" then some [] else (splitOnChar s ',').mapM (fun x => (x.drop 1).toString.toNat?)
     let (orc, dirOk) := match impl.splitOn "|" with
-      | [ka, kb, ra, rb] =>
-        match parseIdx ka, parseIdx kb, parseIdx ra, parseIdx rb with
-        | some ka, some kb, some ra, some rb =>
-          (if e2eOk ds.length ka kb ra rb then [] else ["e2e-not-one-same-link"],
+      | [ka, kb, ra, rb, rawA, rawB] =>
+        match parseIdx ka, parseIdx kb, parseIdx ra, parseIdx rb, parseIdx rawA, parseIdx rawB with
+        | some ka, some kb, some ra, some rb, some rawA, some rawB =>
+          -- `ra`/`rb`: ready events of the sessions still listed, NOT de-duplicated (a session reported
+          -- twice fails `e2eOk`); `rawA`/`rawB`: every ready event in order: each session at most once,
+          -- only sessions of this world, and the kept one was reported
+          ((if e2eOk ds.length ka kb ra rb then [] else ["e2e-not-one-same-link"]) ++
+           (if rawA.eraseDups.length == rawA.length && rawB.eraseDups.length == rawB.length &&
+               (rawA ++ rawB).all (· < ds.length) then [] else ["ready-reported-twice"]),
            e2eDirectionAsModel (nameOrd nameB nameA) ds ka)
-        | _, _, _, _ => (["unparsable"], true)
+        | _, _, _, _, _, _ => (["unparsable"], true)
       | _ => (["unparsable"], true)
     (st, { model := if dirOk then impl else "model: survivor must be a dial of the node whose name sorts last",
            oracle := orc, nontrivial := decide (ds.length > 1) })
+  | ["e2t", nameA, nameB, adv] =>
+    -- the election's own deadline (`CheckSession`, 500 ms): c0 dialled by B is up and ready, A dials
+    -- c1, A's NodeServer is not scheduled while the clock advances by `adv` ms. Whatever `adv`: both
+    -- nodes must end with one and the same link — the one both full elections keep — and every
+    -- session is reported ready at most once.
+    let o := nameOrd nameB nameA
+    let cs : List Conn := [⟨false, 1, 0, 0⟩, ⟨true, 2, 1, 1⟩]
+    let w := (electA o cs).filter (fun i => (electB o cs).contains i)
+    let f (l : List Nat) := if l.isEmpty then "-" else ",".intercalate (l.map (fun i => s!"c{i}"))
+    let parseIdx (s : String) : Option (List Nat) :=
+      if s == "-" then some [] else (splitOnChar s ',').mapM (fun x => (x.drop 1).toString.toNat?)
+    let orc := match words impl with
+      | [_, after] =>
+        match after.splitOn "|" with
+        | [ka, kb, ra, rb] =>
+          match parseIdx ka, parseIdx kb, parseIdx ra, parseIdx rb with
+          | some ka, some kb, some ra, some rb =>
+            (if ka.isEmpty && kb.isEmpty then ["e2e-no-link-after-check-timeout"]
+             else if e2eOk 2 ka kb (ra.filter ka.contains) (rb.filter kb.contains) then [] else ["e2e-not-one-same-link"]) ++
+            (if ra.eraseDups.length == ra.length && rb.eraseDups.length == rb.length then [] else ["ready-reported-twice"])
+          | _, _, _, _ => ["unparsable"]
+        | _ => ["unparsable"]
+      | _ => ["unparsable"]
+    let _ := adv
+    (st, { model := s!"c0/c0 {f w}|{f w}|c0,c1|c0,c1", oracle := orc, nontrivial := true })
   | "ni" :: what :: _ =>
     -- paired non-interference experiment (theorems `unauthenticated_cannot_influence_*`):
     -- the implementation's answer with an unauthenticated name-spoofing session present
@@ -246,7 +276,7 @@ def step (ds : DS) (op impl : String) : DS × StepOut :=
     let ready := if impl == "true" then (pid.toNat?.map (· :: ds.readyImpl)).getD ds.readyImpl else ds.readyImpl
     let orc := if readyOk ns' ready then [] else ["two-ready-sessions-for-one-peer-on-acceptor"]
     ({ ns := ns', readyImpl := ready }, { out with oracle := out.oracle ++ orc })
-  | "visible" :: _ | "checkc" :: _ | "checks" :: _ | "elect" :: _ | "world" :: _ | "e2e" :: _ | "ni" :: _ | "postauth" :: _ => ({ ds with ns := ns' }, out)
+  | "visible" :: _ | "checkc" :: _ | "checks" :: _ | "elect" :: _ | "world" :: _ | "e2e" :: _ | "e2t" :: _ | "ni" :: _ | "postauth" :: _ => ({ ds with ns := ns' }, out)
   | _ => ({ ns := ns', readyImpl := [] }, out)
 
 def run (ops impl : Array String) : IO Tally :=
